@@ -443,11 +443,31 @@ impl SourceFile {
     ///
     /// Returns None if the offset is out of bounds.
     pub fn get_line_column(&self, offset: usize) -> Option<LineColumn> {
-        let (_, zero_indexed_line, zero_indexed_column) = self.ariadne().get_byte_line(offset)?;
-        Some(LineColumn {
-            line: zero_indexed_line + 1,
-            column: zero_indexed_column + 1,
-        })
+        let bytes = self.source_text.as_bytes();
+        if offset > bytes.len() {
+            return None;
+        }
+        // Lines end at a GraphQL LineTerminator: "\n", "\r\n", or "\r" not followed by "\n"
+        let mut line = 1;
+        let mut line_start = 0;
+        for (index, &byte) in bytes[..offset].iter().enumerate() {
+            let next_line_start = match byte {
+                b'\n' => index + 1,
+                b'\r' if bytes.get(index + 1) == Some(&b'\n') => index + 2,
+                b'\r' => index + 1,
+                _ => continue,
+            };
+            if next_line_start > line_start && next_line_start <= offset {
+                line += 1;
+                line_start = next_line_start;
+            }
+        }
+        // Count Unicode Scalar Values: every byte that is not a UTF-8 continuation byte
+        let column = 1 + bytes[line_start..offset]
+            .iter()
+            .filter(|&&byte| (byte & 0xC0) != 0x80)
+            .count();
+        Some(LineColumn { line, column })
     }
 
     /// Get starting and ending [`LineColumn`]s for the given `range` 0-indexed UTF-8 byte offsets.
